@@ -299,6 +299,12 @@ func normSym(fn *Func, e ast.Expr, k, v, recv types.Object, depth int) string {
 			if f, ok := o.(*types.Func); ok {
 				return fname(f)
 			}
+			// a named numeric/string constant of the package stands for its value
+			if c, ok := o.(*types.Const); ok && c.Pkg() != nil && c.Pkg() == fn.Pkg.Types {
+				if b, ok := c.Type().Underlying().(*types.Basic); ok && b.Info()&(types.IsNumeric|types.IsString) != 0 && b.Info()&types.IsUntyped != 0 {
+					return c.Val().ExactString()
+				}
+			}
 			return e.Name
 		case *ast.SelectorExpr:
 			if id, ok := e.X.(*ast.Ident); ok {
@@ -336,6 +342,8 @@ func normSym(fn *Func, e ast.Expr, k, v, recv types.Object, depth int) string {
 			return e.Op.String() + rec(e.X, d)
 		case *ast.IndexExpr:
 			return rec(e.X, d) + "[" + rec(e.Index, d) + "]"
+		case *ast.BinaryExpr:
+			return rec(e.X, d) + " " + e.Op.String() + " " + rec(e.Y, d)
 		}
 		return exprStr(e)
 	}
